@@ -136,6 +136,28 @@ def special_bodies(rng):
             m.body_types = [ty]; m.body = [val]
             m.fields = [(5, ('b', 'u'), 9), (8, ('b', 'g'), wiregen.sig(ty).encode())]
             out.append(("mixed-depth-%d-%d" % (ka, ks), m.marshal()))
+        # the signature grammar where the message parser meets it: as the SIGNATURE field (with an empty array as body), as a `g`
+        # value in the body and as the type of a variant - dict entries with every kind of key, entries outside arrays, wrong arity
+        for sg in (b"a{vs}", b"a{ya{vu}}", b"a{sv}", b"a{(s)s}", b"a{ass}", b"a{s}", b"a{sss}", b"{ss}", b"a{ss}", b"a{}", b"a(a{vs})",
+                   b"a{sa{sv}}", b"a{hs}", b"a{gs}", b"a{os}", b"a{ds}", b"a{bs}", b"aa{ys}", b"a{s(vv)}", b"a{a{ss}s}", b"a{{ss}s}", b"a(s{ss})",
+                   b"a{vv}", b"a(v)", b"a{yv}", b"a{s", b"as}", b"a{s)", b"a(s}"):
+            m = wiregen.Message(); m.le = le; m.mtype = 2
+            m.fields = [(5, ('b', 'u'), 9), (8, ('b', 'g'), b"g")]
+            m.body_types = [('b', 'g')]; m.body = [sg]
+            out.append(("sig-as-value-%s" % sg.decode(), m.marshal()))
+            if sg[:2] in (b"a{", b"a("):
+                m = wiregen.Message(); m.le = le; m.mtype = 2
+                m.fields = [(5, ('b', 'u'), 9), (8, ('b', 'g'), sg)]
+                h = bytearray(m.marshal()); h[4:8] = (8).to_bytes(4, 'little' if le else 'big')
+                out.append(("sig-as-field-%s" % sg.decode(), bytes(h) + bytes(8)))
+                m = wiregen.Message(); m.le = le; m.mtype = 2
+                m.fields = [(5, ('b', 'u'), 9), (8, ('b', 'g'), b"v")]
+                body = bytearray([len(sg)]) + sg + b"\0"
+                while len(body) % 4: body.append(0)
+                body += bytes(4)
+                while len(body) % 8: body.append(0)
+                h = bytearray(m.marshal()); h[4:8] = len(body).to_bytes(4, 'little' if le else 'big')
+                out.append(("sig-as-variant-type-%s" % sg.decode(), bytes(h) + bytes(body)))
         # names at 255/256
         for n in (254, 255, 256):
             m = wiregen.Message(); m.le = le; m.mtype = 1
